@@ -139,12 +139,17 @@ func c18() *core.Check {
 		// UTF-8 character} (multi-byte "escape" handling in front of a backslash run)
 		for fi := range litForms {
 			us = append(us, gen.RangeUnits("body5", gen.Pow(5, 6), 16000, strconv.Itoa(fi))...)
+			// characters whose code point has the delimiter as its low byte
+			// (U+0100+d, U+0600+d, U+2000+d): a rune narrowed to a byte
+			us = append(us, gen.RangeUnits("bodyu", gen.Pow(6, 5), 8000, strconv.Itoa(fi))...)
 		}
+		// bodies that start with a BOM or other multi-byte / high / NUL prefix
+		us = append(us, gen.RangeUnits("bodypre", uint64(len(litForms)*len(c18Prefixes)), 64, "")...)
 		return us
 	}
 	return &core.Check{
 		ID: "C18",
-		Rule: "for every literal form (real ' \" `, virtual quote in the four quoted modes, n' N' e' E' u&' U&', @' @\" @` @@' @@`) bodies over {delimiter, backslash, x, other quote} exhaustively up to length 7 (thorough 11) and periodic bodies U.V.U.V for all U,V up to length 3 (5), behind nine SQL prefixes (incl. backslashes before the opener); q-quotes for all 223 delimiter bytes >= 33 x bodies over {b, close(b), ', x} up to 5 (7), q/Q/nq/Nq; dollar quotes with tags of length 0-3 x bodies over {$, tag letter, x, y} up to 6 (9); the same literals embedded in random SQL; bodies of length 6 over {delimiter, backslash, x, 0xA9, U+00E9} for every form; backslash runs of 29-36, 61-66, 127-130, 255-258, 1023-1025 and 4097 in front of a delimiter for every form; q-quotes whose delimiter byte is the lead byte of a multi-byte UTF-8 character with bodies over {lead byte, continuation bytes, ', x, whole character}; dollar tags with the tag in another letter case inside the body, and tags of 2-256 letters with cut-off / extended closers; virtual-quote literals additionally on a state that has been through the earlier readings of the cascade. " +
+		Rule: "for every literal form (real ' \" `, virtual quote in the four quoted modes, n' N' e' E' u&' U&', @' @\" @` @@' @@`) bodies over {delimiter, backslash, x, other quote} exhaustively up to length 7 (thorough 11) and periodic bodies U.V.U.V for all U,V up to length 3 (5), behind nine SQL prefixes (incl. backslashes before the opener); q-quotes for all 223 delimiter bytes >= 33 x bodies over {b, close(b), ', x} up to 5 (7), q/Q/nq/Nq; dollar quotes with tags of length 0-3 x bodies over {$, tag letter, x, y} up to 6 (9); the same literals embedded in random SQL; bodies of length 6 over {delimiter, backslash, x, 0xA9, U+00E9} and of length 5 over {delimiter, backslash, x, U+0100+d, U+0600+d, U+2000+d} for every form; bodies behind a BOM / high-byte / NUL prefix; backslash runs of 29-36, 61-66, 127-130, 255-258, 1023-1025 and 4097 in front of a delimiter for every form; q-quotes whose delimiter byte is the lead byte of a multi-byte UTF-8 character with bodies over {lead byte, continuation bytes, ', x, whole character}; dollar tags with the tag in another letter case inside the body, and tags of 2-256 letters with cut-off / extended closers; virtual-quote literals additionally on a state that has been through the earlier readings of the cascade. " +
 			"The string token (content start, content end taken from the scan offset after the token, closed?, open/close marks, resume offset) is compared with the first-terminator oracle. Non-trivial = bodies holding a delimiter or backslash; distinct by input+form.",
 		Plan: plan,
 		Gen: func(w *core.Worker, u core.Unit, emit func(core.Case)) {
@@ -231,6 +236,26 @@ func c18() *core.Check {
 				for i := u.Lo; i < u.Hi; i++ {
 					buf = gen.Enum(al, 6, i, buf)
 					emitLit(fi, string(buf), int(i), emit)
+				}
+			case "bodyu":
+				fi, _ := strconv.Atoi(u.Arg)
+				f := litForms[fi]
+				d := rune(f.delim)
+				al := []string{string([]byte{f.delim}), "\\", "x", string(0x100 + d), string(0x600 + d), string(0x2000 + d)}
+				var buf []byte
+				for i := u.Lo; i < u.Hi; i++ {
+					buf = gen.Enum(al, 5, i, buf)
+					emitLit(fi, string(buf), int(i), emit)
+				}
+			case "bodypre":
+				for i := u.Lo; i < u.Hi; i++ {
+					fi := int(i) / len(c18Prefixes)
+					f := litForms[fi]
+					d := string([]byte{f.delim})
+					pre := c18Prefixes[int(i)%len(c18Prefixes)]
+					for _, body := range []string{pre + "x" + d + "y", pre + d + "y" + d, pre + "1" + d + " or 1=1 -- ", pre, pre + d, pre + "\\" + d + "x" + d} {
+						emitLit(fi, body, int(i), emit)
+					}
 				}
 			case "bsrun":
 				for i := u.Lo; i < u.Hi; i++ {
@@ -328,6 +353,8 @@ var c18BsRuns = []int{29, 30, 31, 32, 33, 34, 35, 36, 61, 62, 63, 64, 65, 66, 12
 
 // two-, three- and four-byte characters, and lead bytes with the wrong number of continuation bytes
 var c18UTF8 = []string{"\xc3\xa9", "\xc3\x9f", "\xc2\xa0", "\xdf\xbf", "\xe2\x82\xac", "\xe3\x80\x80", "\xef\xbb\xbf", "\xf0\x9f\x98\x80", "\xf4\x8f\xbf\xbf", "\xc3\xa9\xa9", "\xe2\x82", "\xf0\x9f"}
+
+var c18Prefixes = []string{"\xef\xbb\xbf", "\xff\xfe", "\xfe\xff", "\x00", "\xc2\xa0", "\xe2\x80\x8b", "\xef\xbb", "\xef", "\xe2\x80\x98", "\xef\xbc\x87", "\xc0\xa7", " ", "\n"}
 
 var c18CaseTags = []string{"Tag", "tAG", "a", "Ab", "T", "body", "END"}
 
